@@ -303,8 +303,8 @@ class OverSamplingUniform(AbstractOverSampling):
         """
         signal_to_noise = data / noise_map
 
-        if np.max(signal_to_noise) < (2.0 * signal_to_noise_cut):
-            signal_to_noise_cut = np.max(signal_to_noise) / 2.0
+        if np.nanmax(signal_to_noise) < (2.0 * signal_to_noise_cut):
+            signal_to_noise_cut = np.nanmax(signal_to_noise) / 2.0
 
         sub_size = np.where(
             signal_to_noise > signal_to_noise_cut, sub_size_upper, sub_size_lower
